@@ -62,6 +62,44 @@ def _side(rng, mode=None):
     }
 
 
+def _wedged_after_poll(sim, ch):
+    """An ERTM sender whose retransmission timer expired polled the peer (RR), got no answer before the monitor timer expired, and
+    gave up ('Max retransmission exceeded'): the expired monitor timer stays set, which blocks its output for good, and the channel
+    is not closed either. With MaxTransmit 0 it polls again and again instead, equally unanswered and equally blocked.
+    Returns the index of such an end, or None."""
+    for i, e in enumerate(ch):
+        pr = getattr(e, 'processor', None)
+        h = getattr(pr, '_monitor_handle', None)
+        if h is None:
+            continue
+        expired = h.cancelled() or h.when() <= sim.loop.time()
+        polls = getattr(pr, '_num_receiver_ready_polls_sent', 0)
+        limit = getattr(pr, 'peer_max_retransmission', 0)
+        if polls >= 1 and ((expired and limit > 0 and polls >= limit) or (limit == 0 and polls >= 2)):
+            # gave up (MaxTransmit reached), or MaxTransmit is 0 and it has polled twice or more without an answer: it polls for ever
+            return i
+    return None
+
+
+def _proc_state(ch):
+    out = []
+    for e in ch:
+        pr = getattr(e, 'processor', None)
+        d = {}
+        for k, v in sorted(vars(pr).items()) if pr is not None else []:
+            if isinstance(v, (int, bool)):
+                d[k.lstrip('_')] = v
+            elif isinstance(v, (list, tuple, dict)) or hasattr(v, '__len__'):
+                try:
+                    d[k.lstrip('_')] = f'len={len(v)}'
+                except Exception:
+                    pass
+            elif v is None:
+                d[k.lstrip('_')] = None
+        out.append(str(d))
+    return ' | '.join(out)
+
+
 def gen_transfer(rng, tier, seed):
     mode = rng.choice(['basic', 'ertm', 'ertm'])
     a, b = _side(rng, mode), _side(rng, mode)
@@ -82,6 +120,9 @@ def gen_transfer(rng, tier, seed):
     case = {'a': a, 'b': b, 'profile': rng.choice(PROFILES), 'sdus': sdus, 'burst': rng.random() < 0.7, '_lists': ['sdus']}
     # afterwards, in some runs: request/response exchanges, more of them than the smaller window holds
     case['echo'] = (min(a['window'], b['window']) + rng.choice([1, 3, 10])) if rng.random() < 0.25 else 0
+    # the air goes quiet for a while right after the last write (both directions, nothing lost, order kept): the acknowledgements are
+    # late enough for the ERTM retransmission timer (2 s) to expire, the sender polls, and once the air is back it carries on
+    case['tail_stall'] = rng.choice([2.5, 3.0, 6.0]) if mode == 'ertm' and rng.random() < 0.2 else 0
     return case
 
 
@@ -254,6 +295,11 @@ def run_transfer(case):
             if not case['burst']:
                 sim.loop.settle(vt_budget=60.0, step_budget=2_000_000)
 
+        if case.get('tail_stall'):
+            sim.fault('air_quiet_after_last_write')
+            for nd in (world[0], world[1]):
+                nd.link_in.stall(case['tail_stall'])
+
         def done():
             return rx[0] == want[0] and rx[1] == want[1]
 
@@ -280,6 +326,12 @@ def run_transfer(case):
                 sim.violation_once('corrupt', f'sdu-corrupted:{facts}:{who}', f'SDU #{k}: got {len(got[k])} bytes, wrote {len(exp[k])}')
         # ---- request/response traffic: the acceptor's application answers every SDU from inside its sink, the initiator waits for
         # the answer before it sends the next request; the acknowledgements then travel in the answering I-frames only
+        if a['mode'] == 'ertm' and not sim.violations:
+            w = _wedged_after_poll(sim, ch)
+            if w is not None:
+                # (every SDU was delivered, but this end will never send again: reported under its own name, and the exchanges
+                # below are not attempted on it)
+                sim.violation_once('wedged', 'ertm:sender-wedged-after-unanswered-poll', f'{"initiator" if w == 0 else "acceptor"}: {_proc_state(ch)}')
         if case.get('echo') and not sim.violations:
             answers = []
             ch[0].sink = lambda sdu: answers.append(bytes(sdu))
@@ -291,8 +343,11 @@ def run_transfer(case):
                 req = bytes([k & 0xFF, 0x5A, 0xA5])
                 sim.call(ch[0].write, req)
                 st = sim.loop.drive(lambda: len(answers) > k, vt_budget=60.0, step_budget=1_000_000)
+                if len(answers) <= k and _wedged_after_poll(sim, ch) is not None:
+                    sim.violation_once('wedged', 'ertm:sender-wedged-after-unanswered-poll', f'during the exchanges: {_proc_state(ch)}')
+                    break
                 if len(answers) <= k:
-                    sim.violation_once('echo', f'request-response-stalled:{facts}:after={"few" if k < 4 else "many"}-exchanges', f'exchange {k + 1} of {case["echo"]}: no answer ({st}); window {a["window"]}/{b["window"]}')
+                    sim.violation_once('echo', f'request-response-stalled:{facts}:after={"few" if k < 4 else "many"}-exchanges', f'exchange {k + 1} of {case["echo"]}: no answer ({st}); window {a["window"]}/{b["window"]}; ' + _proc_state(ch))
                     break
                 if answers[k] != b'A' + req:
                     sim.violation_once('echo', f'request-response-corrupted:{facts}', f'exchange {k + 1}: {answers[k].hex()}')
